@@ -449,6 +449,8 @@ pub fn c12_bounds(tier: &str) -> Value {
 
 pub const JUNK: [u8; 9] = [b'A', b'C', b'D', b'g', b'/', b'9', b',', b';', b'!'];
 
+pub const JUNK_WIDE: [&str; 13] = ["A", "C", "D", "g", "/", ",", ";", "!", "é", "\u{ff}", "😀", "\0", "\u{7f}"];
+
 pub fn c17_decode_worker(tier: &str, k: usize, n: usize, ctx: &mut Ctx) {
   let max_len = if tier == "thorough" { 8 } else { 6 };
   // all strings up to max_len over JUNK: enumerate by (length, index), stripe on index
@@ -469,6 +471,50 @@ pub fn c17_decode_worker(tier: &str, k: usize, n: usize, ctx: &mut Ctx) {
       }
       decode_no_panic(ctx, s);
       idx += n;
+    }
+  }
+  // the same over a wider symbol set: strings are UTF-8, so every byte value >= 0x80 can occur
+  // (lead and continuation bytes of 2-, 3- and 4-byte characters), and NUL / DEL
+  {
+    let max2 = if tier == "thorough" { 6 } else { 5 };
+    let mut s = String::with_capacity(max2 * 4);
+    for len in 1..=max2 {
+      let total = JUNK_WIDE.len().pow(len as u32);
+      let mut idx = k;
+      while idx < total {
+        s.clear();
+        let mut c = idx;
+        let mut wide = false;
+        for _ in 0..len {
+          let sym = JUNK_WIDE[c % JUNK_WIDE.len()];
+          wide |= !sym.is_ascii() || sym == "\0" || sym == "\u{7f}";
+          s.push_str(sym);
+          c /= JUNK_WIDE.len();
+        }
+        // strings without any of the new symbols were already run above
+        if wide {
+          if idx % 4096 == k {
+            crate::set_current_desc(json!({"string": s}).to_string());
+          }
+          decode_no_panic(ctx, &s);
+          ctx.count("strings_with_non_ascii_or_control_symbols");
+        }
+        idx += n;
+      }
+    }
+  }
+  // every single character of U+0000..U+07FF (all ASCII bytes, all 2-byte sequences) and samples of
+  // 3-/4-byte ones, alone and inside a segment
+  if k == 1 % n {
+    let mut chars: Vec<char> = (0u32..0x800).filter_map(char::from_u32).collect();
+    chars.extend(['\u{800}', '\u{ffff}', '\u{10000}', '\u{10ffff}', '€', '😀']);
+    for c in chars {
+      for pat in ["{}", "A{}", "{}A", "AA{}A", "g{}", "AAAA,{}", "AAAA;{}AAA"] {
+        let s = pat.replace("{}", &c.to_string());
+        crate::set_current_desc(json!({"string": s}).to_string());
+        decode_no_panic(ctx, &s);
+        ctx.count("single_character_sweep_strings");
+      }
     }
   }
   // continuation runs of every length 1..=40 in each field position, each terminator
